@@ -210,6 +210,10 @@ def analyse_fn(name, owner, trait, body):
     """body = text of the fn from '{' to '}' inclusive.  Returns the record of the function or None."""
     if ".lock()" not in re.sub(r"\s+", "", body) and ".try_lock()" not in re.sub(r"\s+", "", body):
         return None
+    return analyse_fn_body(name, owner, trait, body)
+
+
+def analyse_fn_body(name, owner, trait, body):
     guards = []        # dict(name, lock, depth, temp)
     acqs = []
     depth = 0
@@ -222,8 +226,15 @@ def analyse_fn(name, owner, trait, body):
     stmt_start = 0
     lock_re = re.compile(r"\.\s*(lock|try_lock)\s*\(\s*\)")
     blocking_re = re.compile("|".join(BLOCKING))
+    intervals = []
+    alive_from = None
     while i < n:
         ch = body[i]
+        if guards and alive_from is None:
+            alive_from = i
+        if not guards and alive_from is not None:
+            intervals.append((alive_from, i))
+            alive_from = None
         if ch == "{":
             pre = body[max(0, i - 120):i]
             kind = "loop" if re.search(r"\b(loop|while\b[^{};]*|for\b[^{};]*)\s*$", pre) else "block"
@@ -292,7 +303,9 @@ def analyse_fn(name, owner, trait, body):
     if len(inner_acqs) == 1:
         a = inner_acqs[0]
         to_end = (a["scoped"] and a["depth"] <= 2 and not a["in_loop"]) or (not a["scoped"] and not a["in_loop"])
-    return {"name": name, "acqs": acqs, "blocking": blocking, "wakes": wakes, "to_end": to_end}
+    if alive_from is not None:
+        intervals.append((alive_from, n))
+    return {"name": name, "acqs": acqs, "blocking": blocking, "wakes": wakes, "to_end": to_end, "intervals": intervals}
 
 
 def coq_str(s):
@@ -335,11 +348,16 @@ def generate():
     fns = impls_and_fns(s)
     sites = []
     inner_methods = []
+    locked_regions = []     # absolute offsets of streams.rs where a guard of `inner` is alive or the code belongs to Inner / Actions
     for (name, header, trait, a, b) in fns:
         owner = name.split("::")[0] if "::" in name else ""
+        if owner in ("Inner", "Actions") or name == "maybe_cancel":
+            locked_regions.append((a, b))
         rec = analyse_fn(name, owner, trait, s[a:b + 1])
         if rec is None:
             continue
+        if owner != "SendBuffer":
+            locked_regions += [(a + x, a + y) for (x, y) in rec["intervals"]]
         if owner == "Inner":
             rec["kind"], rec["entry"] = "KInnerMethod", ["LInner"]
             inner_methods.append(name.split("::")[1])
@@ -485,13 +503,14 @@ def generate():
             rel = os.path.relpath(os.path.join(root, f), REPO)
             if not rel.endswith(".rs") or rel == "src/verif.rs":
                 continue
-            raw = read(rel)
+            raw = strip_comments(read(rel))
             for m in re.finditer(r'crate::verif::(?:enter|ev)\(\s*"([^"]+)"', raw):
                 nm = m.group(1)
-                if rel in LOCKED_FILES or (rel == STREAMS and nm.startswith("inner.")):
+                if rel in LOCKED_FILES:
                     cls = "HLocked"
                 elif rel == STREAMS:
-                    cls = "HLockedAtSite"
+                    # offsets of `raw` and of the cleaned text agree (blanking keeps lengths)
+                    cls = "HLocked" if any(x <= m.start() <= y for (x, y) in locked_regions) else "HUnlockedSite"
                 elif rel == "src/proto/ping_pong.rs" and nm.startswith("ping.user_"):
                     cls = "HLockFree"
                 else:
@@ -506,7 +525,7 @@ def generate():
     t += "Inductive lockid := LInner | LSendBuf.\n"
     t += "Inductive poison := PUnwrap | PErr | PSkip | PPanicUnlessPanicking | PTry.\n"
     t += "Inductive fkind := KHandle | KShared | KConn | KInnerMethod | KOther.\n"
-    t += "Inductive hookclass := HLocked | HLockedAtSite | HLockFree | HConnPrivate.\n\n"
+    t += "Inductive hookclass := HLocked | HUnlockedSite | HLockFree | HConnPrivate.\n\n"
     t += "(* one acquisition: which lock, the guards alive at that point of the function text, inside a loop?, bound to a\n   named guard (lives to the end of its block) or a temporary (dies with its statement), how a poisoned lock is consumed *)\n"
     t += "Record acq := mkAcq { a_lock : lockid; a_held : list lockid; a_in_loop : bool; a_scoped : bool; a_poison : poison }.\n\n"
     t += "(* one function: locks held on entry (Inner's own methods run on a guard of `inner`), its acquisitions in textual order,\n   number of transport / poll / await calls while a guard is alive, a waker woken directly while a guard is alive,\n   the single guard of `inner` lives to the end of the function *)\n"
@@ -528,6 +547,6 @@ def generate():
     t += "Definition drop_unwrap_paths : list (string * string) := %s.\n\n" % cl(["(%s, %s)" % (coq_str(a), coq_str(c)) for a, c in drop_paths])
     t += "(* `unsafe` occurrences per file of src/ (none in the files modelled for C20: checked by the translator) *)\n"
     t += "Definition unsafe_blocks : list (string * N) := %s.\n\n" % cl(["(%s, %d%%N)" % (coq_str(a), k) for a, k in unsafe_blocks])
-    t += "(* hook emission sites: HLocked = in code reachable only through the guard of `inner`; HLockedAtSite = in streams.rs,\n   placed after the acquisition; HLockFree = the user-ping cell; HConnPrivate = state owned by the connection task *)\n"
+    t += "(* hook emission sites: HLocked = in code reachable only through the guard of `inner` (callee files, Inner / Actions methods)\n   or, in streams.rs, at a position where a guard of `inner` is alive; HUnlockedSite = in streams.rs outside any guard;\n   HLockFree = the user-ping cell; HConnPrivate = state owned by the connection task *)\n"
     t += "Definition hook_sites : list (string * hookclass) := [\n  " + ";\n  ".join("(%s, %s)" % (coq_str(a), c) for a, c in hook_sites) + "\n].\n"
     return {"LockInventory.v": write_if_changed("LockInventory.v", t)}
